@@ -43,7 +43,7 @@ func runC03(r *Run, p *Prog) {
 		r.Unresolved("P1", "client Send/receive and service dispatch entry")
 		return
 	}
-	sdec := decodeSites(entry)
+	sdec := decodeSitesDeep(p, entry)
 	if len(sdec) != 1 {
 		r.Unresolved("P1", "request decode in the dispatch entry")
 		return
